@@ -3,6 +3,7 @@ mod c14;
 pub mod probe;
 pub mod sets;
 pub mod sexp;
+pub mod tuples;
 
 fn main() {
     let args = hx_common::Args::parse();
